@@ -9,7 +9,7 @@
 (***************************************************************************)
 EXTENDS Crystal, TLC, Json, IOUtils
 
-CONSTANTS NBlocks, N
+CONSTANTS NBlocks, N, TwoStride
 Data == JsonDeserialize(IOEnv.SG_FILE)
 SG == Data.rows
 Sites == Data.sites
@@ -27,7 +27,7 @@ Unit1(s) == << [z |-> 6, p |-> Sites[s], occ |-> 12, label |-> "C1"] >>
 Unit2(s) == << [z |-> 6, p |-> Sites[s], occ |-> 6, label |-> "C1"],
                [z |-> 8, p |-> Sites[(s % Len(Sites)) + 1], occ |-> 4, label |-> "O2"] >>
 OneSite == site > 0 => AlgorithmMeetsSpec(SG[row].ops, Unit1(site), N)
-TwoSites == (site > 0 /\ OrbitsDisjoint(SG[row].ops, Unit2(site), N)) => AlgorithmMeetsSpec(SG[row].ops, Unit2(site), N)
+TwoSites == (site > 0 /\ site % TwoStride = 0 /\ OrbitsDisjoint(SG[row].ops, Unit2(site), N)) => AlgorithmMeetsSpec(SG[row].ops, Unit2(site), N)
 (* orbit-stabiliser: |orbit| * multiplicity = |G| for every site *)
 OrbitStabiliser == site > 0 =>
    LET ops == SG[row].ops p == Sites[site] IN
